@@ -325,7 +325,8 @@ impl Stats {
 /// Which simulated world decides a property.
 pub fn world_of(prop: &str) -> char {
     match prop {
-        "C02" | "C03" | "C04" | "C05" | "C06" | "C07" | "C08" | "C09" | "C10" | "C20" => 'A',
+        "C02" | "C03" | "C04" | "C05" | "C06" | "C07" | "C08" | "C09" | "C10" => 'A',
+        "C20" => 'T',
         "C01" | "C14" => 'B',
         "C11" | "C12" | "C13" => 'C',
         _ => 'C',
@@ -372,6 +373,29 @@ pub fn stack_name(prop: &str, plan: &Plan) -> String {
     };
     let base = stacks[(plan.writer.stack as usize) % stacks.len()];
     if prop == "C13" && plan.writer.verbosity == 1 && !base.contains("tee_of_fos") { format!("x_{base}") } else { base.to_owned() }
+}
+
+/// Runs `plan` in world T (tracing collector installed; once per process!) and evaluates
+/// `prop`'s oracle (C20, or any world-A oracle).
+#[cfg(feature = "tracing")]
+pub fn execute_t_inproc(prop: &str, plan: &Rc<Plan>) -> Result<Executed, String> {
+    let h = crate::runt::run_world_t(plan)?;
+    let violations = {
+        let a = Analysis::new(plan, &h);
+        if prop == "C20" {
+            let mut v = Vec::new();
+            crate::runt::c20(&a, &mut v);
+            v
+        } else {
+            oracle_a::run_oracle(prop, &a)
+        }
+    };
+    Ok(Executed { violations, history: Some(h), chistory: None, bhistory: None })
+}
+
+#[cfg(not(feature = "tracing"))]
+pub fn execute_t_inproc(_prop: &str, _plan: &Rc<Plan>) -> Result<Executed, String> {
+    Err("harness: world T needs the tracing build of the worker".into())
 }
 
 /// Chooses the writer stack, reporter options and sink faults of a pipeline-world plan.
@@ -503,7 +527,7 @@ pub fn make_replay(
     let v = e.violations.iter().find(|v| v.class() == class).cloned().unwrap_or_else(|| viol.clone());
     Ok(ReplayFile {
         property: prop.to_owned(),
-        world: world_of(prop).to_string(),
+        world: if plan.tracing { "T".to_owned() } else { world_of(prop).to_string() },
         build: build_name().to_owned(),
         seed,
         run_index,
